@@ -20,6 +20,7 @@ import (
 	"sync"
 	"sync/atomic"
 	"syscall"
+	"testing"
 	"time"
 )
 
@@ -117,6 +118,9 @@ func WorkerMain(specJSON string) {
 	}
 	out := os.NewFile(3, "proto")
 	w := bufio.NewWriter(out)
+	hbMu.Lock()
+	hbOut = w
+	hbMu.Unlock()
 	p := Lookup(spec.Prop)
 	if p == nil {
 		fmt.Fprintf(os.Stderr, "worker: unknown prop %q\n", spec.Prop)
@@ -145,8 +149,10 @@ func WorkerMain(specJSON string) {
 		} else if i < spec.From || i%spec.NShard != spec.Shard {
 			continue
 		}
+		hbMu.Lock()
 		fmt.Fprintf(w, "B %d\n", i)
 		w.Flush()
+		hbMu.Unlock()
 		// run the case in its own goroutine: a panic of the code under test
 		// must kill the process at once (no recovery by the testing package).
 		ch := make(chan Result, 1)
@@ -158,15 +164,41 @@ func WorkerMain(specJSON string) {
 		}
 		r.Counters["_case_ms"] = time.Since(t0).Milliseconds()
 		b, _ := json.Marshal(r)
+		hbMu.Lock()
 		fmt.Fprintf(w, "R %d %s\n", i, b)
 		w.Flush()
+		hbMu.Unlock()
 	}
 	fmt.Fprintf(w, "D\n")
 	w.Flush()
 	os.Exit(0)
 }
 
+var (
+	hbMu   sync.Mutex
+	hbOut  *bufio.Writer
+	hbLast time.Time
+)
+
+// Heartbeat tells the driver that the current case is still making progress
+// (long explorations call it after every execution). Rate limited.
+func Heartbeat() {
+	hbMu.Lock()
+	defer hbMu.Unlock()
+	if hbOut == nil || time.Since(hbLast) < 2*time.Second {
+		return
+	}
+	hbLast = time.Now()
+	fmt.Fprintf(hbOut, "H\n")
+	hbOut.Flush()
+}
+
 // ---------------------------------------------------------------- driver side
+
+type slowCase struct {
+	ms   int64
+	what string
+}
 
 type caseFail struct {
 	Part string
@@ -188,6 +220,7 @@ type agg struct {
 	partDone    map[string]int
 	crashes     int64
 	maxCaseMs   int64
+	slow        []slowCase
 	exhaustive  bool
 	deadlineHit bool
 }
@@ -207,6 +240,11 @@ func (a *agg) add(part string, idx int, r Result) {
 		if k == "_case_ms" {
 			if v > a.maxCaseMs {
 				a.maxCaseMs = v
+			}
+			a.slow = append(a.slow, slowCase{v, part + "#" + strconv.Itoa(idx) + " " + oneLine(r.Case, 120)})
+			sort.Slice(a.slow, func(i, j int) bool { return a.slow[i].ms > a.slow[j].ms })
+			if len(a.slow) > 6 {
+				a.slow = a.slow[:6]
 			}
 			continue
 		}
@@ -694,6 +732,7 @@ func Check(id, tier string) int {
 		"inconclusive":        a.inconcl,
 		"worker_crashes":      a.crashes,
 		"max_case_ms":         a.maxCaseMs,
+		"slowest_cases":       slowList(a.slow),
 	}
 	if len(a.inconclEx) > 0 {
 		cov["inconclusive_examples"] = a.inconclEx
@@ -791,7 +830,7 @@ func runShard(bin string, spec workerSpec, a *agg, deadline time.Time, onN func(
 			to := caseTimeout()
 			hangsSeen.Add(1)
 			a.add(spec.Part, crashedAt, Result{Case: fmt.Sprintf("%s#%d (worker made no progress; use ./run replay to see the case)", spec.Part, crashedAt), Outcome: "hang", Nontrivial: true,
-				Fail: &Failure{Symptom: "hang", Features: map[string]string{}, Detail: fmt.Sprintf("the case made no progress for %v and its worker was killed; reported only if the same case hangs again in isolated re-runs with the full time limit\n%s", to, lastLines(tail, 8))}})
+				Fail: &Failure{Symptom: "hang", Features: map[string]string{"part": spec.Part, "index": strconv.Itoa(crashedAt)}, Detail: fmt.Sprintf("the case made no progress for %v and its worker was killed; reported only if the same case hangs again in isolated re-runs with the full time limit\n%s", to, lastLines(tail, 8))}})
 			if spec.Only >= 0 {
 				return
 			}
@@ -911,6 +950,14 @@ func Replay(path string) int {
 	return 0
 }
 
+func slowList(s []slowCase) []string {
+	var o []string
+	for _, x := range s {
+		o = append(o, fmt.Sprintf("%dms %s", x.ms, x.what))
+	}
+	return o
+}
+
 func featStr(m map[string]string) string {
 	var ks []string
 	for k := range m {
@@ -953,7 +1000,4 @@ func Fail(symptom, detail string, feats ...string) *Failure {
 }
 
 // T is the *testing.T of the entry test (needed by testing/synctest).
-var T interface {
-	Helper()
-	Fatalf(string, ...any)
-}
+var T *testing.T
